@@ -302,38 +302,44 @@ def run_o2(case):
                 await anyio.sleep(3.0 - (net.now() - t_start))
                 await api.close(cm)
 
-            async def first3():
-                await anyio.sleep(0.7)
-                resp, cm = await api.open("GET", "https://o.test/first")
-                await anyio.sleep(20.0)
-                await api.close(cm)
-
-            async def waiter3():
-                await anyio.sleep(0.8)
+            async def contender3(name, t0):
+                # two requests for the same origin: both are handed the connection that may become HTTP/2; whichever
+                # the connection serves first keeps its response open, the other one is bounced and queued again
+                await anyio.sleep(t0)
                 try:
-                    await api.request("GET", "https://o.test/w", extensions={"timeout": {"pool": 5.0}})
-                    res["w"] = ("ok", net.now() - t_start)
+                    resp, cm = await api.open("GET", f"https://o.test/{name}", extensions={"timeout": {"pool": 5.0}})
+                    res[name] = ("ok", net.now() - t_start)
+                    await anyio.sleep(20.0)
+                    await api.close(cm)
                 except Exception as exc:  # noqa
-                    res["w"] = (type(exc).__name__, net.now() - t_start)
+                    res[name] = (type(exc).__name__, net.now() - t_start)
 
             async def body3():
                 async with anyio.create_task_group() as tg:
                     tg.start_soon(holder3)
-                    tg.start_soon(first3)
-                    tg.start_soon(waiter3)
+                    tg.start_soon(contender3, "first", 0.7)
+                    tg.start_soon(contender3, "w", 0.8)
                 return True
             await guarded(flavor, body3)
             cnt["o2_histories"] += 1
             cnt["o2_requeue_histories"] += 1
             sigs.add(f"o2|{flavor}|queued-then-bounced")
-            kind, t_rel = res.get("w", ("never", -1))
-            if kind != "PoolTimeout" or not (5.8 - 1e-3 <= t_rel <= 6.3 + 1e-3):
-                v("o2-requeued-request-timeout:" + ("late" if kind == "PoolTimeout" and t_rel > 6.3 else "other"),
-                  f"request queued at 0.8 with pool timeout 5.0, handed a connection at 3.0, bounced at 3.5 and queued again: "
-                  f"ended {kind} at {t_rel}; expected PoolTimeout between 5.8 (deadline from arrival) and 6.3 (5 s queued in all)",
-                  {"flavor": flavor})
+            served = [n for n in ("first", "w") if res.get(n, ("never", -1))[0] == "ok"]
+            if len(served) != 1 or abs(res[served[0]][1] - 3.5) > 1e-3:
+                v("o2-requeued-request-timeout:nobody-served", f"two requests handed one connection at 3.0 that turns out to be "
+                  f"HTTP/1.1 at 3.5: exactly one of them should be served then; outcomes {res}", {"flavor": flavor})
             else:
-                cnt["o2_timeouts_observed"] += 1
+                loser = "w" if served[0] == "first" else "first"
+                t0 = 0.8 if loser == "w" else 0.7
+                kind, t_rel = res.get(loser, ("never", -1))
+                sigs.add(f"o2|{flavor}|queued-then-bounced|bounced:{loser}")
+                if kind != "PoolTimeout" or not (t0 + 5.0 - 1e-3 <= t_rel <= t0 + 5.5 + 1e-3):
+                    v("o2-requeued-request-timeout:" + ("late" if kind == "PoolTimeout" and t_rel > t0 + 5.5 else "other"),
+                      f"request queued at {t0} with pool timeout 5.0, handed a connection at 3.0, bounced at 3.5 and queued again: "
+                      f"ended {kind} at {t_rel}; expected PoolTimeout between {t0 + 5.0} (deadline from arrival) and {t0 + 5.5} "
+                      f"(5 s queued in all)", {"flavor": flavor, "bounced": loser})
+                else:
+                    cnt["o2_timeouts_observed"] += 1
             await api.close_pool()
             for name, S, waiters in ORDERINGS[:0]:
                 # P=0 with free capacity succeeds
